@@ -3,7 +3,7 @@ import session_common as SC
 from framework import Task
 
 
-def sched_tasks(tier, checks, prefix, msg_prefix, kinds, race=False, nobj=2):
+def sched_tasks(tier, checks, prefix, msg_prefix, kinds, race=False, nobj=2, digest=False, extra_defs=''):
     cfgs = [(0, 40, 0)] if tier == 'quick' else [(0, 40, 0), (6, 64, 1), (0, 7, 0)]
     width = 48 if tier == 'quick' else 32
     nranges = 12 if tier == 'quick' else 24
@@ -12,16 +12,16 @@ def sched_tasks(tier, checks, prefix, msg_prefix, kinds, race=False, nobj=2):
         for ec in ((-1,) if tier == 'quick' else (-1, 1)):
             defs = '#define VP_FS_CAP 24000\n#define CFG_LEVEL %d\n#define CFG_CONTAINER %d\n#define CFG_RESTORE %d\n' \
                    '#define NOBJ %d\n#define EARLY_CLOSE_AFTER %d\n' % (lvl, cs, rp, nobj, ec)
-            defs += ''.join('#define %s 1\n' % c for c in checks)
+            defs += ''.join('#define %s 1\n' % c for c in checks) + extra_defs
             for r in range(nranges + 1):
                 lo = r * width
                 hi = (r + 1) * width if r < nranges else 10 ** 9
                 tid = '%s.l%d_c%d_r%d%s.sync%d-%s' % (prefix, lvl, cs, rp, '' if ec < 0 else '_close%d' % ec, lo,
                                                       hi if r < nranges else 'end')
                 out.append(Task(tid, defs + SC.SRC, 'h_session', None,
-                                opts=dict(validate=False, extra=['zlib_stub.cpp'], max_steps=80000000, max_wall=1500,
+                                opts=dict(validate=False, extra=['zlib_stub.cpp'], limit_is_hang=True, max_steps=12000000, max_wall=1500,
                                           enum_limit=400, msg_prefix=msg_prefix, preempt_bound=1, preempt_range=(lo, hi),
-                                          race_detect=race),
+                                          race_detect=race, digest_tags=('file',) if digest else ()),
                                 desc='write+read session (level %d, container %d, restore %d, %d objects%s) under every schedule '
                                      'that preempts the running thread once at a synchronisation point numbered %d..%s '
                                      '(mutex release / thread start) in favour of each other runnable thread' % (
